@@ -16,7 +16,12 @@ RULE = ('gin-machine/call: 1-4 probe configurables with generated signatures (po
         'decorators; a configurable / registered class inheriting the __init__ of a configurable base class; bound method, '
         'class method, static method, callable object through external_configurable; metaclass-wrapped classes with '
         'constructor parameters named like parameters of Gin\'s own wrappers), 1-5 bindings over prefixes / non-prefixes '
-        'of the active scope, every split positional / keyword / omitted; expectation from the property text.')
+        'of the active scope, every split positional / keyword / omitted; expectation from the property text. '
+        'registered-methods (implementation only): 1-3 @gin.register methods (instance / static; positional, defaulted, *args, '
+        'keyword-only, **kwargs) defined by the registered class or inherited from an unregistered base / grand-base class, '
+        '0-7 bindings under the provisional selector over any number of scopes before the class is registered, 0-4 under '
+        '<Class>.<method> after it, calls on an instance (direct / made by a @Class() reference), through the configurable '
+        'class and through the method\'s own configurable before the class registration; expectation from the property text.')
 TRUSTED_BASE = [
     'Coq 8.16.1 kernel; vm_compute in Examples and in the correspondence run; no native_compute',
     'axioms: none expected (see print_assumptions)',
@@ -550,4 +555,288 @@ class CallableShapesEngine(Engine):
             'tags': [case['shape'], 'err' if got is None else 'ok']}
 
 
-ENGINES = [CallEngine(), LateClassEngine(), CallableShapesEngine()]
+# ----------------------------------------------------------------------------
+# methods registered in a class body (@gin.register), own or INHERITED, instance or STATIC, of a class that is registered
+# later; bindings made under the provisional selector (before the class registration, in any number of scopes) and under
+# <Class>.<method> (after it); calls on an instance / through the class / before the class registration
+
+METH_MODULE = 'methmod'
+METH_PKG = 'methpkg'
+METH_WHERE = ('own', 'base', 'grandbase')      # class K(B), class B(G), class G: only K is registered
+METH_CLASS = {'own': 'K', 'base': 'B', 'grandbase': 'G'}
+METH_XKW = ['z', 'y']
+
+
+def meth_source(methods):
+  """python source of the hierarchy G <- B <- K; every method returns what it received."""
+  bodies = {'own': [], 'base': [], 'grandbase': []}
+  for m in methods:
+    parts = [] if m['kind'] == 'static' else ['self']
+    parts += [p if i < m['required'] else "%s='default:%s'" % (p, p) for i, p in enumerate(m['params'])]
+    if m['varargs']:
+      parts.append('*rest')
+    elif m['kwonly']:
+      parts.append('*')
+    parts += ["%s='default:%s'" % (p, p) for p in m['kwonly']]
+    if m['varkw']:
+      parts.append('**opts')
+    env = ['%r: %s' % (p, p) for p in m['params'] + m['kwonly']]
+    env.append("'*': %s" % ('tuple(rest)' if m['varargs'] else 'None'))
+    env.append("'**': %s" % ('dict(opts)' if m['varkw'] else 'None'))
+    env.append("'self': %s" % ('None' if m['kind'] == 'static' else "type(self).__name__"))
+    bodies[m['where']].append('%s  @gin.register\n  def %s(%s):\n    return {%s}\n' % (
+        '  @staticmethod\n' if m['kind'] == 'static' else '', m['name'], ', '.join(parts), ', '.join(env)))
+  src = "class G:\n  def __init__(self, label='l'):\n    self.label = label\n" + ''.join(bodies['grandbase'])
+  src += 'class B(G):\n' + (''.join(bodies['base']) or '  pass\n')
+  src += 'class K(B):\n' + (''.join(bodies['own']) or '  pass\n')
+  return src
+
+
+def meth_expectation(m, call, binds):
+  """from the property text alone.  binds: [(scope string, param, tag)] of this method in the order they were made (a later
+  binding of the same scope and parameter replaces the earlier one).  returns (exp, why) or None when Python itself has to
+  refuse the call (a parameter left without value)."""
+  active = call['active']
+
+  def bound(p):
+    best = None
+    for sc, q, tag in binds:
+      scl = sc.split('/') if sc else []
+      if q == p and scl == active[:len(scl)] and (best is None or len(scl) >= len(best[0])):
+        best = (scl, tag)
+    return None if best is None else best[1]
+
+  exp, why = {}, {}
+  for i, p in enumerate(m['params'] + m['kwonly']):
+    if i < min(call['npos'], len(m['params'])):
+      exp[p], why[p] = 'pos:%d' % i, 'caller-positional'
+    elif p in call['kw']:
+      exp[p], why[p] = 'kw:' + p, 'caller-keyword'
+    elif bound(p) is not None:
+      exp[p], why[p] = bound(p), 'binding'
+    elif p in m['kwonly'] or i >= m['required']:
+      exp[p], why[p] = 'default:' + p, 'default'
+    else:
+      return None
+  exp['*'] = tuple('pos:%d' % i for i in range(len(m['params']), call['npos'])) if m['varargs'] else None
+  why['*'] = 'caller-positional'
+  if m['varkw']:
+    exp['**'] = {x: 'kw:' + x for x in call['kw'] if x in METH_XKW}
+    for x in METH_XKW:
+      if x not in exp['**'] and bound(x) is not None:
+        exp['**'][x] = bound(x)
+  else:
+    exp['**'] = None
+  why['**'] = 'caller-keyword / binding'
+  exp['self'], why['self'] = (None if m['kind'] == 'static' else 'K'), 'the instance the method is called on'
+  return exp, why
+
+
+def gen_meth_case(rng):
+  methods = []
+  for i in range(rng.randint(1, 3)):
+    params = list(rng.choice([['a', 'b', 'c'], ['a', 'b'], ['a'], ['step', 'warmup']]))
+    varargs = rng.random() < 0.3
+    methods.append({'name': 'm%d' % i, 'kind': rng.choice(['instance', 'static']), 'where': rng.choice(METH_WHERE),
+                    'params': params, 'required': rng.choice([0, 0, 0, 1]), 'varargs': varargs,
+                    'kwonly': ['k'] if rng.random() < 0.4 else [], 'varkw': rng.random() < 0.3})
+  active = ginm.gen_scope(rng, 3) or [rng.choice(ginm.SCOPES)]
+  pool = [active[:i] for i in range(len(active) + 1)] * 2 + [ginm.gen_scope(rng, 2), list(reversed(active)), active[1:]]
+
+  def gen_binds(n):
+    out = []
+    for _ in range(n):
+      m = rng.choice(methods)
+      p = rng.choice(m['params'] + m['kwonly'] + (METH_XKW if m['varkw'] else []))
+      b = ['/'.join(rng.choice(pool)), m['name'], p, rng.choice(['bind', 'parse']), rng.random() < 0.5]
+      if not any(o[:3] == b[:3] for o in out):
+        out.append(b)
+    return out
+
+  pre, post = gen_binds(rng.randint(0, 7)), gen_binds(rng.randint(0, 4))
+  calls = []
+  for _ in range(rng.randint(2, 6)):
+    m = rng.choice(methods)
+    npos = rng.randint(0, len(m['params']))
+    if m['varargs'] and npos == len(m['params']) and rng.random() < 0.5:
+      npos += rng.randint(1, 2)
+    kw = [p for p in m['params'][npos:] + m['kwonly'] + (METH_XKW if m['varkw'] else []) if rng.random() < 0.3]
+    if m['required'] and npos == 0 and m['params'][0] not in kw and rng.random() < 0.7:
+      kw.append(m['params'][0])
+    r = rng.random()
+    scope = active if r < 0.5 else rng.choice(pool)
+    calls.append({'method': m['name'], 'via': rng.choice(['instance', 'instance', 'reference', 'class']),
+                  'when': 'early' if rng.random() < 0.15 else 'late', 'active': list(scope), 'npos': npos, 'kw': kw})
+  return {'api': rng.choice(['register', 'external']), 'module': rng.choice([None, METH_PKG]), 'methods': methods,
+          'pre': pre, 'post': post, 'calls': calls}
+
+
+class RegisteredMethodsEngine(Engine):
+  """methods registered with @gin.register in a class body -- instance and static, defined by the registered class itself or
+  INHERITED from an (unregistered) base or grand-base class -- with positional, defaulted, *args, keyword-only and **kwargs
+  parameters.  Bindings are made under the provisional selector (<method>, <module>.<method>) in any number of scopes BEFORE
+  the class is registered (gin.register / gin.external_configurable) and under <Class>.<method> after it; the methods are
+  called on an instance of the configurable class (made directly or by a @Class() reference), through the configurable class,
+  and, before the class registration, through the method's own configurable, under active scopes that have the binding scopes
+  as prefixes / non-prefixes, with every split positional / keyword / omitted.  Expectation from the property text: the
+  caller's value, else the binding under the longest prefix of the active scope, else the default; a static method never
+  receives the instance.  Implementation only: the model is given one flat signature per configurable and registers
+  everything up front."""
+  name = 'registered-methods'
+  model = False
+
+  def budget(self, tier):
+    return 150 if tier == 'quick' else 4000
+
+  def corpus(self):
+    sched = {'name': 'at', 'kind': 'static', 'where': 'base', 'params': ['step', 'warmup', 'decay'], 'required': 0,
+             'varargs': False, 'kwonly': ['floor'], 'varkw': False}
+    own = dict(sched, name='scale', where='own', params=['a', 'b'], kwonly=[])
+    step = {'name': 'step', 'kind': 'instance', 'where': 'own', 'params': ['lr', 'decay', 'clip'], 'required': 0,
+            'varargs': True, 'kwonly': ['nesterov'], 'varkw': True}
+    ev = {'name': 'evaluate', 'kind': 'instance', 'where': 'grandbase', 'params': ['batch', 'metric'], 'required': 0,
+          'varargs': False, 'kwonly': [], 'varkw': False}
+
+    def calls(name, splits, scopes, vias=('instance', 'reference', 'class')):
+      return [{'method': name, 'via': via, 'when': 'late', 'active': sc, 'npos': npos, 'kw': kw}
+              for via in vias for sc in scopes for npos, kw in splits]
+
+    scopes = ([], ['s1'], ['s1', 's2'], ['s2'], ['s3', 's1'])
+    out = []
+    # inherited / own static methods, bound after the class registration, called on instances and on the class
+    for api in ('register', 'external'):
+      out.append({'api': api, 'module': None, 'methods': [sched, own], 'pre': [],
+                  'post': [['', 'at', 'decay', 'parse', False], ['s1', 'at', 'warmup', 'parse', False],
+                           ['s1/s2', 'at', 'floor', 'bind', True], ['s3', 'at', 'decay', 'bind', False],
+                           ['', 'scale', 'b', 'bind', False]],
+                  'calls': calls('at', ((1, []), (0, ['step']), (0, []), (2, ['decay'])), scopes) +
+                           calls('scale', ((1, []), (0, [])), ([], ['s1']))})
+    # bindings of one method in several scopes made before the class registration, in several insertion orders
+    pre = [['s1', 'step', 'decay', 'parse', False], ['', 'step', 'lr', 'parse', False], ['s1/s2', 'step', 'clip', 'parse', False],
+           ['s1/s2', 'step', 'lr', 'parse', True], ['s3', 'step', 'lr', 'bind', False], ['s1', 'step', 'z', 'bind', False],
+           ['s1/s2', 'step', 'nesterov', 'bind', False], ['s1', 'evaluate', 'batch', 'bind', True]]
+    for api, module, order in (('register', METH_PKG, pre), ('external', None, list(reversed(pre))),
+                               ('register', None, pre[1:] + pre[:1])):
+      out.append({'api': api, 'module': module, 'methods': [step, ev, dict(sched, where='grandbase')], 'pre': order,
+                  'post': [['s2', 'step', 'lr', 'bind', False], ['s1', 'at', 'warmup', 'parse', False]],
+                  'calls': calls('step', ((0, []), (1, ['z']), (4, ['nesterov'])), scopes + (['s3'], ['s3', 's1', 's2'])) +
+                           calls('evaluate', ((0, []), (1, [])), ([], ['s1'])) + calls('at', ((1, []),), ([], ['s1']), ('instance',)) +
+                           [{'method': 'step', 'via': 'instance', 'when': 'early', 'active': ['s1', 's2'], 'npos': 0, 'kw': []}]})
+    return out
+
+  def gen(self, rng, tier):
+    return gen_meth_case(rng)
+
+  def shrink(self, case):
+    for i in range(len(case['calls'])):
+      if len(case['calls']) > 1:
+        yield dict(case, calls=case['calls'][:i] + case['calls'][i + 1:])
+    for key in ('pre', 'post'):
+      for i in range(len(case[key])):
+        yield dict(case, **{key: case[key][:i] + case[key][i + 1:]})
+    used = {c['method'] for c in case['calls']}
+    for i, m in enumerate(case['methods']):
+      if m['name'] not in used and len(case['methods']) > 1:
+        yield dict(case, methods=case['methods'][:i] + case['methods'][i + 1:],
+                   pre=[b for b in case['pre'] if b[1] != m['name']], post=[b for b in case['post'] if b[1] != m['name']])
+
+  def impl(self, case):
+    gin = C.fresh_gin()
+    methods = {m['name']: m for m in case['methods']}
+    ns = {'gin': gin, '__name__': METH_MODULE}
+    exec(meth_source(case['methods']), ns)  # pylint: disable=exec-used
+    K = ns['K']
+    gin.configurable('holder', module=METH_MODULE)(ns.setdefault('holder', lambda obj=None: obj))
+    class_module = case['module'] or METH_MODULE
+    made = {}       # method -> [(scope, param, tag)]
+    fails = []
+
+    def bind(phase, b):
+      sc, name, p, how, full = b
+      if phase == 'pre':
+        sel = (METH_MODULE + '.' if full else '') + name
+      else:
+        sel = (class_module + '.' if full else '') + 'K.' + name
+      tag = '%s@%s:%s' % (phase, sc, p)
+      key = (sc + '/' if sc else '') + sel + '.' + p
+      try:
+        if how == 'bind':
+          gin.bind_parameter(key, tag)
+        else:
+          gin.parse_config('%s = %r\n' % (key, tag))
+      except Exception as e:  # pylint: disable=broad-except
+        fails.append(('binding-rejected', '%s = %r (%s, %s the class registration) raised %s: %s' % (
+            key, tag, how, 'before' if phase == 'pre' else 'after', type(e).__name__, str(e).splitlines()[0][:160])))
+        return
+      made.setdefault(name, []).append((sc, p, tag))
+
+    def run_call(call, registered):
+      m = methods[call['method']]
+      spec = meth_expectation(m, call, made.get(m['name'], []))
+      if spec is None:
+        return None
+      exp, why = spec
+      args = ['pos:%d' % i for i in range(call['npos'])]
+      kwargs = {p: 'kw:' + p for p in call['kw']}
+      what = '%s method %s(%s) %s, called %s with args=%r kwargs=%r under scope %r; bindings of the method so far %r' % (
+          m['kind'], m['name'], ', '.join(m['params'] + ['*rest'] * m['varargs'] + m['kwonly'] + ['**opts'] * m['varkw']),
+          'defined by the registered class' if m['where'] == 'own' else 'inherited from its %s class' % m['where'],
+          {'instance': 'on an instance of the configurable class', 'reference': 'on the instance a @K() reference made',
+           'class': 'through the configurable class',
+           'early': "through the method's own configurable before the class registration"}[call['via'] if registered else 'early'],
+          args, kwargs, '/'.join(call['active']), made.get(m['name'], []))
+      try:
+        if not registered:
+          target = gin.get_configurable(getattr(K, m['name']))
+          inst = None if m['kind'] == 'static' else K()
+        else:
+          Kc = gin.get_configurable(K)
+          if call['via'] == 'class':
+            target, inst = getattr(Kc, m['name']), (None if m['kind'] == 'static' else Kc())
+          else:
+            obj = Kc() if call['via'] == 'instance' else gin.get_configurable(ns['holder'])()
+            target, inst = getattr(obj, m['name']), None
+        with gin.config_scope(list(call['active']) or None):
+          got = target(*([inst] if inst is not None else []) + args, **kwargs)
+      except Exception as e:  # pylint: disable=broad-except
+        return [('call-raised', '%s raised %s: %s; the property requires %r' % (
+            what, type(e).__name__, str(e).splitlines()[0][:160], exp))]
+      for p in m['params'] + m['kwonly'] + ['*', '**', 'self']:
+        if got.get(p, '<absent>') != exp[p]:
+          kind = {'caller-positional': 'caller-value-not-delivered', 'caller-keyword': 'caller-value-not-delivered',
+                  'binding': 'binding-not-delivered', 'default': 'default-not-kept'}.get(why[p], 'wrong-' + p)
+          return [(kind, '%s: %r received %r, the property requires %r (%s)' % (what, p, got.get(p, '<absent>'), exp[p], why[p]))]
+      return []
+
+    nontrivial, tags = False, []
+    for b in case['pre']:
+      bind('pre', b)
+    for call in case['calls']:
+      if call['when'] == 'early':
+        fails += run_call(call, False) or []
+    try:
+      if case['api'] == 'register':
+        gin.register(K, module=case['module'])
+      else:
+        gin.external_configurable(K, module=case['module'])
+      gin.parse_config('%s.holder.obj = @%s.K()\n' % (METH_MODULE, class_module))
+    except Exception as e:  # pylint: disable=broad-except
+      fails.append(('class-registration-raised', '%s: %s' % (type(e).__name__, str(e)[:200])))
+      return {'obs': T('Done'), 'fails': fails[:3], 'nontrivial': False, 'tags': ['registration-err']}
+    for b in case['post']:
+      bind('post', b)
+    for call in case['calls']:
+      if call['when'] != 'early':
+        r = run_call(call, True)
+        if r is None:
+          tags.append('unsatisfiable')
+          continue
+        fails += r
+        m = methods[call['method']]
+        scopes = {sc for sc, _, _ in made.get(m['name'], [])}
+        tags.append('%s-%s' % (m['where'], m['kind']))
+        nontrivial = nontrivial or (len(scopes) >= 2 and call['npos'] + len(call['kw']) > 0)
+    return {'obs': T('Done'), 'fails': fails[:3], 'nontrivial': nontrivial, 'tags': tags}
+
+
+ENGINES = [CallEngine(), LateClassEngine(), CallableShapesEngine(), RegisteredMethodsEngine()]
